@@ -563,6 +563,12 @@ fn dump_fn<'tcx>(tcx: TyCtxt<'tcx>, def: LocalDefId, stolen: &mut usize) -> Opti
     let sm = tcx.sess.source_map();
     let end = sm.lookup_char_pos(body.span.source_callsite().hi()).line;
     o.set("end_line", J::n(end as i128));
+    {
+        // generic parameter names in substitution order (parents first): lets the analysis bind `N` of `f::<N>` at a call
+        let g = tcx.generics_of(did);
+        let names: Vec<J> = (0..g.count()).map(|i| J::s(g.param_at(i, tcx).name.as_str())).collect();
+        o.set("generics", J::Arr(names));
+    }
     if matches!(tcx.def_kind(did), DefKind::Fn | DefKind::AssocFn) {
         o.set("pub", J::b(tcx.visibility(did).is_public()));
         if let Some(im) = tcx.impl_of_assoc(did) {
